@@ -86,7 +86,7 @@ func c09XRun(rq *xRequest, validate bool) (*xObserved, bool) {
 		seen = "(Some " + t.varsSeen + ")"
 	}
 	inputs := strings.TrimSuffix(strings.TrimPrefix(jvCoq(rq.inputs), "(JObj "), ")")
-	obs.coq = fmt.Sprintf("{| x_kind := %d; x_schema := %s; x_doc := %s; x_op := %s; x_inputs := %s; x_root := (RObj 0 \"root\"); x_oracle := %s; x_toracle := %s; x_rejected := %s; x_data := %s; x_errs := %s; x_calls := %s; x_tcalls := %s; x_varsseen := %s; x_log := %s |}",
+	obs.coq = fmt.Sprintf("{| x_kind := %d; x_schema := %s; x_doc := %s; x_op := %s; x_inputs := %s; x_root := (RObj 0 \"root\"); x_oracle := %s; x_toracle := %s; x_rejected := %s; x_data := %s; x_errs := %s; x_calls := %s; x_tcalls := %s; x_varsseen := %s; x_log := %s; x_plan := None |}",
 		rq.kind, rq.s.coq(), rq.doc.coq(), opn, inputs, coqList(t.oracle), coqList(t.tover), coqBool(rejected), data, errsCoq, coqList(t.calls), coqList(t.tcalls), seen, coqList(t.log))
 	obs.nCalls = len(t.calls)
 	o := &c09Obs{extra: map[string]interface{}{}}
